@@ -19,7 +19,7 @@ TITLE = 'Printing an unedited document yields text that parses back equal'
 LEVEL = 'exploration'
 TECHNIQUE = ('round-trip oracle per format over Hypothesis-generated documents of the stated domain: load, print with the '
              'format\'s own formatter, load the printed text, compare canonical values')
-RULE = ("Cases per format. JSON / JSON5: recursive documents with st.text() over all Unicode scalars (plus escapes, "
+RULE = ("[XML element text also multi-line, padded and blank, with and without children; a third of the cases print a small document of ANOTHER format on the same Printer object first (one Printer used for several documents) and a half render a diff before the round trip.] Cases per format. JSON / JSON5: recursive documents with st.text() over all Unicode scalars (plus escapes, "
         "quotes, separators, newlines), arbitrary-size ints, floats incl. -0.0, subnormals, 1e308, NaN/Infinity, empty "
         "containers, depth <= 6, written with ensure_ascii on and off. CSV: tables of arbitrary text cells incl. quotes, "
         "commas, CR/LF, empty cells and rows. YAML / plist: arbitrary structure (incl. empty and nested containers) over "
@@ -37,7 +37,7 @@ MANIFEST_TEXT = ("Per-format print/parse round trip over generated documents cov
                  "numbers for JSON/JSON5/CSV; alphanumeric content with arbitrary structure for YAML/plist/XML).")
 MANIFEST_NOTE = "Trusts vf/canon.py's plain() for comparing two graphtage trees; the input files are written by the standard libraries."
 DESIGN_REF = 'DESIGN.md section 3, C12'
-SHRINK = {'docs': ['doc'], 'enums': {'warm': False}}
+SHRINK = {'docs': ['doc'], 'enums': {'warm': False, 'reuse': None}}
 
 
 def _has_empty_container(d):
@@ -73,16 +73,21 @@ tables = st.lists(st.lists(cells, max_size=4), max_size=4)
 tags = st.text(alphabet='abcXYZ', min_size=1, max_size=4)
 
 
+# element text as hand-written and pretty-printed documents have it: several lines, indentation around it, blanks inside
+xtext = st.one_of(st.none(), alnum, alnum, st.sampled_from(['\n  remember\n  ', 'two\nlines', ' padded ', 'a b', 'x\n', '\n  ', 'tab\there']))
+
+
 def xml_docs():
     leaf = st.builds(lambda t, at, tx: {'tag': t, 'attrib': at, 'text': tx, 'children': []},
-                     tags, st.dictionaries(tags, alnum, max_size=2), st.one_of(st.none(), alnum))
+                     tags, st.dictionaries(tags, alnum, max_size=2), xtext)
     return st.recursive(leaf, lambda ch: st.builds(
         lambda t, at, tx, cs: {'tag': t, 'attrib': at, 'text': tx, 'children': cs},
-        tags, st.dictionaries(tags, alnum, max_size=2), st.one_of(st.none(), alnum), st.lists(ch, max_size=3)), max_leaves=6)
+        tags, st.dictionaries(tags, alnum, max_size=2), xtext, st.lists(ch, max_size=3)), max_leaves=6)
 
 
 def _warm(strat):
-    return st.tuples(strat, st.booleans()).map(lambda t: dict(t[0], warm=t[1]))
+    return st.tuples(strat, st.booleans(), st.sampled_from([None, None, 'json', 'yaml', 'plist', 'plist', 'xml', 'csv'])).map(
+        lambda t: dict(t[0], warm=t[1], **({'reuse': t[2]} if t[2] and t[2] != t[0]['fmt'] else {})))
 
 
 STRATS = {
@@ -150,12 +155,39 @@ def serialise(case):
     raise ValueError(f)
 
 
-def printed(fmt, tree):
+TINY = {'json': b'{"k": [1, {"a": "b", "c": "d"}]}', 'yaml': b'k:\n- 1\n- a: b\n  c: d\n', 'csv': b'a,b\n1,2\n',
+        'xml': b'<r a="1"><c>t</c><d/></r>',
+        'plist': plistlib.dumps({'k': [1, {'a': 'b', 'c': 'd'}]})}
+_tiny_trees = {}
+
+
+def tiny_tree(fmt):
+    if fmt not in _tiny_trees:
+        p = cli.write_file(TINY[fmt], cli.EXT[fmt], name='tiny')
+        try:
+            _tiny_trees[fmt] = FT[fmt].build_tree(p)
+        finally:
+            cli.cleanup_files(p)
+    return _tiny_trees[fmt]
+
+
+def printed(fmt, tree, reuse=None):
     s = io.StringIO()
     pr = Printer(out_stream=s, ansi_color=False, quiet=True)
+    start = 0
+    if reuse:
+        # one Printer used for several documents: a small document of another format is printed on it first; whatever that
+        # formatter left behind on the printer must not change how this one prints
+        try:
+            FT[reuse].get_default_formatter().print(pr, tiny_tree(reuse))
+            pr.write('\n')
+            pr.flush(final=True)
+        except Exception:
+            pass
+        start = len(s.getvalue())
     FT[fmt].get_default_formatter().print(pr, tree)
     pr.flush(final=True)
-    return s.getvalue()
+    return s.getvalue()[start:]
 
 
 def depth(d):
@@ -229,7 +261,7 @@ def check(case):
             out.skipped = 'input-rejected-by-loader'      # not this property's business (C20 covers rejection)
             return out
         with guard(f'print {fmt}'):
-            text = printed(fmt, t1)
+            text = printed(fmt, t1, case.get('reuse'))
         try:
             raw = text.encode('utf-8')
         except UnicodeEncodeError as e:
@@ -253,5 +285,7 @@ def check(case):
     else:
         out.nontrivial = depth(d) >= 2
     out.label('fmt:' + fmt)
+    if case.get('reuse'):
+        out.label('printer-reused-after:' + case['reuse'])
     out.info = {'printed_len': len(text)}
     return out
